@@ -171,7 +171,8 @@ SPEC = PropSpec(
     runs={"quick": 40000, "thorough": 1000000},
     rule=("two scenarios.  CountingBloomFilter: <=120 cells, 7 hash strategies incl. range-squeezed (coinciding "
           "positions), <=40 steps of add(key,n) / legitimate remove / LIFO bracket (export, adds, undo in reverse, export "
-          "must be identical) / removal of a key reported absent; check >= outstanding for every key after every step.  "
+          "must be identical) / removal of a key reported absent / bursts of several hundred look-ups of other keys; 1 run in 4 "
+          "follows a prior-life filter with another strategy object; check >= outstanding for every key after every step.  "
           "CountingCuckooFilter: world K histories with every eviction decision owned by the simulator and fan-out over "
           "alternative tapes; check(key) must equal the model's outstanding count of the key's fingerprint after every "
           "call, across kicks and expansions; removing an absent key returns False and leaves the table unchanged.  "
